@@ -31,7 +31,10 @@
 (*                                     draining, routefail = the routing store fails deletes);    *)
 (*                                     replace carries clean (see TrEnv); glitch carries k: t0 =  *)
 (*                                     a Read returns (0, timeout), tn = (n > 0, timeout)         *)
-(*  CloseEnd {e, kind, w}              close: end e closed its connection; error: it failed;      *)
+(*  CloseEnd {e, kind, w, x}           close: end e closed its connection; error: it failed for   *)
+(*                                     good (every further call returns the error); x (optional) = *)
+(*                                     what the error says about itself: tmo = Timeout() but not   *)
+(*                                     Temporary(), tmp = Temporary() but not Timeout();           *)
 (*                                     w = data: the last bytes come with io.EOF / the error;     *)
 (*                                     short: it failed inside a Write after taking part of it;   *)
 (*                                     bridge: a third party called Bridge.Close() (e = "-")      *)
@@ -41,6 +44,11 @@
 (*                                     of the first CloseEnd (or of Attach, if that came later)   *)
 (*  Forgot   {n}                       tunnels left in the server's map 5 s after that instant    *)
 (*  Counters {sent, recv}              Bridge.GetBytesSent/Received (recorded, not judged)        *)
+(*  Calls    {e, n}                    how many Read / Write calls the server had made, by the    *)
+(*                                     end of the watch, on end e's connection AFTER that         *)
+(*                                     connection had failed: a permanent failure ends the copy   *)
+(*                                     loops - a handful of calls (each loop learns of it once),  *)
+(*                                     not a busy loop on a dead connection                       *)
 (*  Crash    {fn}                      the (child) server process died of a Go panic whose topmost *)
 (*                                     frame is the tunnox-core function fn; fn = typed-nil-conn: *)
 (*                                     the server called a method on a nil connection it had      *)
@@ -121,7 +129,7 @@ TrEnv == /\ Is("Env") /\ l' = l + 1
          /\ stale' = (IF Ev.a = "replace" THEN TRUE ELSE IF Ev.a = "closeold" THEN FALSE ELSE stale)
          /\ void' = (IF Ev.a = "replace" /\ ~Ev.clean THEN void \cup {"s2t"} ELSE void)
          /\ tail' = (tail /\ Ev.a # "replace")
-         /\ fault' = (IF Ev.a = "glitch" THEN Also(IF Ev.k = "tn" THEN "read=data+timeout" ELSE "read=timeout")
+         /\ fault' = (IF Ev.a = "glitch" THEN Also(IF Ev.k = "tn" THEN "read=data+timeout" ELSE IF Ev.k = "tp" THEN "read=polling" ELSE "read=timeout")
                       ELSE IF Ev.a = "arm" THEN Also("write=short")
                       ELSE IF Ev.a = "stall" THEN Also("write=stalled")
                       ELSE IF Ev.a = "routefail" THEN Also("route=delete-fails")
@@ -137,7 +145,10 @@ TrCloseEnd ==
           /\ tail' = (Ev.kind = "close" /\ ~stale /\ delivered[OutOf(Other(Ev.e))] = sent[OutOf(Other(Ev.e))])
      ELSE /\ ended' = ended /\ ender' = ender
           /\ tail' = FALSE                       \* a second end closed or failed
-  /\ fault' = (IF Has("w") /\ Ev.w = "data" THEN Also(IF Ev.kind = "close" THEN "read=data+eof" ELSE "read=data+error") ELSE fault)
+  /\ fault' = (LET f1 == IF Has("x") THEN Also("error=" \o Ev.x) ELSE fault
+                   f2 == IF f1 = "" THEN (IF Ev.kind = "close" THEN "read=data+eof" ELSE "read=data+error")
+                         ELSE f1 \o "," \o (IF Ev.kind = "close" THEN "read=data+eof" ELSE "read=data+error")
+               IN IF Has("w") /\ Ev.w = "data" THEN f2 ELSE f1)
   /\ UNCHANGED <<viol, cfg, sent, delivered, attached, stale, void, kind>>
 
 \* clause (a); the judge recounts, it does not rely on the driver's flag
@@ -171,6 +182,12 @@ TrCrash == /\ Is("Crash") /\ l' = l + 1
            /\ Add("Crash", IF Ev.fn = "typed-nil-conn" THEN Ev.fn ELSE "panic:" \o Ev.fn)
            /\ UNCHANGED <<cfg, sent, delivered, attached, ended, ender, tail, stale, void, fault, kind>>
 
+\* bounded number of calls on a dead connection (model: NoBusyLoop, at most 2 per direction)
+MaxDeadCalls == 4
+TrCalls == /\ Is("Calls") /\ l' = l + 1
+           /\ IF Ev.n > MaxDeadCalls THEN Add("BusyLoop", St("calls-on-failed-connection:end=" \o Ev.e \o ":" \o Ctx)) ELSE viol' = viol
+           /\ UNCHANGED <<cfg, sent, delivered, attached, ended, ender, tail, stale, void, fault, kind>>
+
 TrCounters == /\ Is("Counters") /\ l' = l + 1
               /\ UNCHANGED <<viol, cfg, sent, delivered, attached, ended, ender, tail, stale, void, fault, kind>>
 
@@ -185,6 +202,6 @@ TrEnd == /\ Is("End")
          /\ ended' = "none" /\ ender' = "-" /\ tail' = FALSE /\ stale' = FALSE /\ void' = {} /\ fault' = "" /\ kind' = ""
 
 Next == TrCfg \/ TrSend \/ TrAttach \/ TrDeliver \/ TrEnv \/ TrCloseEnd \/ TrDrain
-        \/ TrClosure \/ TrForgot \/ TrCounters \/ TrCrash \/ TrEnd
+        \/ TrClosure \/ TrForgot \/ TrCounters \/ TrCalls \/ TrCrash \/ TrEnd
 Spec == Init /\ [][Next]_vars
 =============================================================================
